@@ -47,6 +47,14 @@ Clause decided: "nothing the source states is lost on the way through the IR".
      explicitly (the local rename, or ``None``) -- the provider's own ``use_name``
      records how *it* obtained the symbol; copied along, the regenerated ``USE``
      statement renames the symbol to a name the provider does not export.
+ R10 what is specified for one entity of a declaration is consulted on both
+     sides: ``FParser2IR.visit_Type_Declaration_Stmt`` reads each variable's own
+     ``dimensions`` where it attaches the common DIMENSION shape and its own
+     ``dimensions`` / ``type.length`` where it writes the symbol-table entry, and
+     ``FortranCodegen._construct_decl_variables`` reads ``v.dimensions`` next to the
+     declaration's and ``v.type.length`` -- otherwise ``y(2*n)`` in ``REAL,
+     DIMENSION(n) :: x, y(2*n)`` or ``b*10`` in ``CHARACTER(LEN=5) :: a, b*10`` is
+     replaced by the common specification.
 Not decided: that a consumed operand is rendered correctly beyond R4 (C06 covers
 expression printing in general), run-time equality.
 """
@@ -451,9 +459,78 @@ def run_r678(ctx):
                                   f'provider itself imported the symbol under a rename (use a, only: x => y), the importing unit is regenerated as '
                                   f'`USE provider, ONLY: x => y`, which binds x to a different entity or does not compile', instance=inst)
     ctx.floor('R9', 'imported-type clones in the frontends', n9, 8)
+    # ---- R10
+    ctx.rule('R10', 'per-entity dimensions / character length are read where the common specification is applied (frontend) and printed (backend)')
+    FP_ = m.get_class('loki/frontend/fparser.py', 'FParser2IR')
+    td = FP_.function('visit_Type_Declaration_Stmt')
+    if td is None:
+        raise AnalysisError('FParser2IR.visit_Type_Declaration_Stmt vanished')
+
+    def entity_reads(node, var):
+        out = set()
+        for a in ast.walk(node):
+            if isinstance(a, ast.Attribute) and isinstance(a.value, ast.Name) and a.value.id == var:
+                out.add(a.attr)
+            if isinstance(a, ast.Attribute) and isinstance(a.value, ast.Attribute) and isinstance(a.value.value, ast.Name) \
+                    and a.value.value.id == var and a.value.attr == 'type':
+                out.add('type.' + a.attr)
+            if isinstance(a, ast.Call) and isinstance(a.func, ast.Name) and a.func.id == 'getattr' and len(a.args) >= 2 \
+                    and isinstance(a.args[0], ast.Name) and a.args[0].id == var and isinstance(a.args[1], ast.Constant):
+                out.add(a.args[1].value)
+        return out
+    helpers = {n.name: n for n in ast.walk(td.node) if isinstance(n, ast.FunctionDef) and n is not td.node}
+    opar = [a.arg for a in td.node.args.args][1]
+    vnames = set(X.names_assigned_from(td.node, f'{opar}.children[2]'))
+    comps = [c for c in ast.walk(td.node) if isinstance(c, (ast.GeneratorExp, ast.ListComp, ast.DictComp)) and len(c.generators) == 1
+             and isinstance(c.generators[0].target, ast.Name) and isinstance(c.generators[0].iter, ast.Name)
+             and c.generators[0].iter.id in vnames]
+    redim = [c for c in comps if any(isinstance(k, ast.keyword) and k.arg == 'dimensions' for k in ast.walk(c))]
+    table = [c for c in comps if isinstance(c, ast.DictComp)]
+    if not redim or not table:
+        raise AnalysisError('visit_Type_Declaration_Stmt: re-dimensioning / symbol-table comprehensions over `variables` not found')
+    for c in redim:
+        v = c.generators[0].target.id
+        rd = entity_reads(c, v)
+        (ctx.judge('R10', 'frontend: DIMENSION attribute applied per entity', facts={'reads': sorted(rd)}) if 'dimensions' in rd else
+         ctx.violation('R10', 'visit_Type_Declaration_Stmt:common-shape-overrides-entity', f'{td.module.relpath}:{c.lineno}',
+                       f'`{ast.unparse(c)[:90]}` gives every declared variable the shape of the DIMENSION attribute without looking at the '
+                       f'variable\'s own array specification: REAL, DIMENSION(n) :: x, y(2*n) declares y(n)'))
+    for c in table:
+        v = c.generators[0].target.id
+        rd = entity_reads(c, v)
+        for call in ast.walk(c):
+            if isinstance(call, ast.Call) and isinstance(call.func, ast.Name) and call.func.id in helpers and call.args \
+                    and isinstance(call.args[0], ast.Name) and call.args[0].id == v:
+                h = helpers[call.func.id]
+                rd |= entity_reads(h, h.args.args[0].arg)
+        miss = [x for x in ('dimensions', 'type.length') if x not in rd]
+        (ctx.judge('R10', 'frontend: symbol-table entry keeps entity-specific shape and length', facts={'reads': sorted(rd)}) if not miss else
+         ctx.violation('R10', 'visit_Type_Declaration_Stmt:common-attributes-override-entity', f'{td.module.relpath}:{c.lineno}',
+                       f'the symbol-table entry of each declared variable is written from the common type without reading the variable\'s own '
+                       f'{miss}: CHARACTER(LEN=5) :: a, b*10 gives b the length 5, REAL, DIMENSION(n) :: x, y(2*n) gives y the shape (n)'))
+    Fg = m.get_class('loki/backend/fgen.py', 'FortranCodegen')
+    cd = Fg.function('_construct_decl_variables')
+    if cd is None:
+        raise AnalysisError('FortranCodegen._construct_decl_variables vanished')
+    loops = [l for l in ast.walk(cd.node) if isinstance(l, ast.For) and isinstance(l.target, ast.Name) and ast.unparse(l.iter).endswith('.symbols')]
+    if not loops:
+        raise AnalysisError('_construct_decl_variables: loop over the declared symbols not found')
+    v = loops[0].target.id
+    rd = entity_reads(loops[0], v)
+    miss = [x for x in ('dimensions', 'type.length') if x not in rd]
+    (ctx.judge('R10', 'backend: entity-specific dimensions and length are printed', facts={'reads': sorted(rd)}) if not miss else
+     ctx.violation('R10', 'FortranCodegen._construct_decl_variables:entity-spec-not-printed', f'{cd.module.relpath}:{loops[0].lineno}',
+                   f'the declared entities are printed without reading their own {miss}: an array specification or character length given '
+                   f'for one entity is replaced by the common one of the declaration'))
 
 
 MUTANTS = [
+    Mutant('common-shape-overrides-entity', 'loki/frontend/fparser.py',
+           "                v if getattr(v, 'dimensions', None) else v.clone(dimensions=_type.shape) for v in variables\n", "                v.clone(dimensions=_type.shape) for v in variables\n",
+           expect=('R10', 'common-shape-overrides-entity')),
+    Mutant('entity-length-not-printed', 'loki/backend/fgen.py',
+           "            if v.type.length is not None and v.type.length != o.symbols[0].type.length:\n                # Entity-specific character length\n                var += f'*({self.visit(v.type.length, **kwargs)})'\n",
+           "", expect=('R10', 'entity-spec-not-printed')),
     Mutant('imported-clone-inherits-use-name', 'loki/frontend/fparser.py',
            "                        scope.symbol_attrs[s.name] = _type.clone(\n                            imported=True, module=module, use_name=None\n                        )",
            "                        scope.symbol_attrs[s.name] = _type.clone(imported=True, module=module)", expect=('R9', 'inherits-use_name')),
